@@ -4,13 +4,7 @@
 (* function lengths (no constants, no variables; shared by Thresholds.tla, *)
 (* Codebase.tla, Render.tla, ...).                                         *)
 (***************************************************************************)
-EXTENDS Naturals, Sequences
-
-Category(L) == IF L <= 15 THEN 1 ELSE IF L <= 30 THEN 2 ELSE IF L <= 60 THEN 3 ELSE 4
-CategoryName(L) == <<"easy", "verbose", "hard-to-maintain", "unmaintainable">>[Category(L)]
-Colour(L) == <<"green", "yellow", "dark_orange", "red">>[Category(L)]
-Symbol(L) == IF L > 60 THEN "cross" ELSE IF L > 30 THEN "warning" ELSE "check"
-IsFinding(L) == L > 30
+EXTENDS Categories, Sequences
 
 RECURSIVE SumSeq(_)
 SumSeq(s) == IF s = <<>> THEN 0 ELSE Head(s) + SumSeq(Tail(s))
